@@ -460,15 +460,19 @@ def canon(ctx):
 
 
 def canon_state_rule(ctx):
-    """the recursive canonical-form writer carries exactly: the output, the named-once table and the in-progress table.
+    """the recursive canonical-form writer carries exactly: the output, the named-once table, the in-progress table and the
+    counter of named types written.
     Anything else kept in that struct is shared by every nesting level of the recursion (a list-separator flag there is
     clobbered by a nested empty list): list-local state must be a local of the invocation that writes the list"""
     f = ctx.f
     a = f.adts.get(CF + 'WriteCanonicalFormState')
     tys = sorted(x['ty'] for x in a['variants'][0]['fields']) if a else None
-    ok = a is not None and len(tys) == 3 and sum(1 for t in tys if t == 'alloc::vec::Vec<bool>') == 2
+    # reviewed: the writer, the named-once table (bool per node), the in-progress table (generation per node) and the
+    # counter of named types written that the generations are taken from
+    ok = a is not None and len(tys) == 4 and sum(1 for t in tys if t == 'alloc::vec::Vec<bool>') == 1 and \
+        sum(1 for t in tys if t == 'alloc::vec::Vec<usize>') == 1 and sum(1 for t in tys if t == 'usize') == 1
     ctx.ob('STATE', 'canonical-writer-fields', ok, short_loc(a['span']) if a else None,
-           'fields of the recursive canonical-form writer: %s (reviewed: the writer and two per-node boolean tables)' % ([x['name'] + ': ' + x['ty'][:40] for x in a['variants'][0]['fields']] if a else None))
+           'fields of the recursive canonical-form writer: %s (reviewed: the writer, two per-node tables and the named-types counter)' % ([x['name'] + ': ' + x['ty'][:40] for x in a['variants'][0]['fields']] if a else None))
 
 
 def canon_extra(ctx, w, fam=None):
